@@ -154,5 +154,7 @@ impl<'a> Emitter<'a> {
         v["i"] = serde_json::json!(i);
         v["gen"] = serde_json::json!(gen);
         writeln!(self.out, "{}", v).unwrap();
+        // an abort of the code under test must not take finished cases with it
+        let _ = self.out.flush();
     }
 }
